@@ -289,6 +289,7 @@ fn main() {
                 Some(p) => Journal::open(&p),
                 None => Journal::none(),
             };
+            let mut emit = arg(&args, "--emit").map(|p| std::fs::File::create(p).expect("emit file"));
             let mut probes: BTreeMap<&'static str, u64> = BTreeMap::new();
             let mut nontrivial: HashSet<u64> = HashSet::new();
             let mut progs: HashSet<u64> = HashSet::new();
@@ -312,6 +313,10 @@ fn main() {
                 }
                 let ph = rt::fnv(program.dump().as_bytes());
                 progs.insert(ph);
+                if let Some(f) = emit.as_mut() {
+                    // determinism proof: program hash, full decision sequence hash, verdict
+                    let _ = writeln!(f, "{}", J::obj().set("run", i).set("prog", ph).set("trace", r.trace_hash).set("steps", r.out.decisions.len()).set("atomics", r.atomic_ops).set("viol", r.viol.len()).dump());
+                }
                 if r.out.preemptions > 0 {
                     nontrivial.insert(mix(&[ph, r.trace_hash]));
                 }
